@@ -2,6 +2,7 @@ package c14sim
 
 import (
 	"fmt"
+	"reflect"
 	"runtime/debug"
 	"strings"
 
@@ -26,15 +27,62 @@ func MapSnapshot(m map[string]string) string {
 // DoCall performs the API call of key k with the given option form and returns
 // the canonical result. shared is the map object to use for the "shared" form.
 // The second result reports a violation of O3 (caller's map modified), if any.
-func DoCall(k *Key, form string, shared map[string]string, h Hooks) (result string, mapViolation string) {
-	result, mapViolation, _ = DoCallKeep(k, form, shared, h)
+func DoCall(k *Key, form string, sh *Shared, h Hooks) (result string, mapViolation string) {
+	result, mapViolation, _ = DoCallKeep(k, form, sh, h)
 	return
+}
+
+// Shared is what several calls (and several callers) of one run use together: one parameter map
+// object, and one CompileOptions value holding it — callers keep an options value around and use it
+// from many goroutines, so anything the library remembers inside it is shared state too.
+type Shared struct {
+	Map  map[string]string
+	Opts *pql.CompileOptions
+}
+
+// NewShared builds the shared objects for key k (before the run starts). With zero set the options
+// value is the zero value (no parameter map at all).
+func NewShared(k *Key, zero bool) *Shared {
+	sh := &Shared{Opts: &pql.CompileOptions{}}
+	if !zero {
+		sh.Map = k.ParamMap()
+		sh.Opts.Parameters = sh.Map
+	}
+	applyExtra(sh.Opts, k.Extra)
+	return sh
+}
+
+// resetExported sets every exported field of the options value to its zero value and leaves whatever
+// the library keeps in unexported fields alone.
+func resetExported(opts *pql.CompileOptions) {
+	v := reflect.ValueOf(opts).Elem()
+	for i := 0; i < v.NumField(); i++ {
+		if f := v.Field(i); f.CanSet() {
+			f.Set(reflect.Zero(f.Type()))
+		}
+	}
+}
+
+// NewOwn returns a caller's own options value for the "reused" form.
+func NewOwn() *Shared { return &Shared{Opts: &pql.CompileOptions{}} }
+
+// IsSharedForm reports whether the option form uses an object shared between calls.
+func IsSharedForm(form string) bool {
+	return form == "shared" || form == "sharedopts" || form == "sharedzero"
+}
+
+// SharedSig identifies the shared object a call with this key and form uses within a run.
+func SharedSig(k *Key, form string) string {
+	if form == "sharedzero" {
+		return "zero|" + Dump(k.Extra)
+	}
+	return Dump(k.Params) + "|" + Dump(k.Extra)
 }
 
 // DoCallKeep is DoCall that also returns a function re-rendering the raw values the call returned
 // (token slices, syntax trees, strings). Calling it later — after other calls have run — must give
 // the same text: results must not alias state that later calls overwrite.
-func DoCallKeep(k *Key, form string, shared map[string]string, h Hooks) (result string, mapViolation string, again func() string) {
+func DoCallKeep(k *Key, form string, sh *Shared, h Hooks) (result string, mapViolation string, again func() string) {
 	var opts *pql.CompileOptions
 	var watched map[string]string
 	usePkgFunc := false
@@ -55,8 +103,20 @@ func DoCallKeep(k *Key, form string, shared map[string]string, h Hooks) (result 
 			watched = k.ParamMap()
 			opts = &pql.CompileOptions{Parameters: watched}
 		case "shared":
-			watched = shared
-			opts = &pql.CompileOptions{Parameters: shared}
+			watched = sh.Map
+			opts = &pql.CompileOptions{Parameters: sh.Map}
+		case "sharedopts", "sharedzero":
+			watched = sh.Map
+			opts = sh.Opts
+		case "reused":
+			// one options value per caller, kept between its calls; before each call the caller sets
+			// its exported fields to what this call is to be given (a caller may do that between calls)
+			opts = sh.Opts
+			resetExported(opts)
+			if len(k.Params) > 0 {
+				watched = k.ParamMap()
+				opts.Parameters = watched
+			}
 		default:
 			panic("c14sim: unknown option form " + form)
 		}
@@ -65,7 +125,10 @@ func DoCallKeep(k *Key, form string, shared map[string]string, h Hooks) (result 
 	if watched != nil {
 		before = MapSnapshot(watched)
 	}
-	renderExtra := applyExtra(opts, k.Extra)
+	var renderExtra func() string
+	if form != "sharedopts" && form != "sharedzero" { // the shared value got its fields when it was built
+		renderExtra = applyExtra(opts, k.Extra)
+	}
 	extraBefore := ""
 	if renderExtra != nil {
 		extraBefore = renderExtra()
